@@ -80,3 +80,22 @@ PROPS['C08'] = dict(
                 'IN / NOT IN subqueries vs. list membership incl. NULL and empty-subquery cases, outer and inner over different tables.',
     trusted_base=[], assumptions=[],
 )
+
+PROPS['C09'] = dict(
+    level='other', harness='h09', min_t1=5,
+    explanation='T1: EvalConstant returns its value; Cursor.execute re-establishes the cursor state whatever the history (frame: only the '
+                'cursor fields are written, callee contracts assumed). Bounded (T3): placeholders (positional in textual order / named, in '
+                'targets, WHERE, ORDER BY, subqueries, repeated names) vs. literal substitution; folded constants vs. per-row evaluation from '
+                'columns; execution histories (text and parsed-once statements re-used with different parameters, interleaved with other '
+                'statements) vs. fresh single executions; executemany; deep comparison of the source table.',
+    trusted_base=[], assumptions=[],
+)
+
+PROPS['C05'] = dict(
+    level='other', harness='h05', min_t1=0,
+    explanation='Bounded (T3) contract evaluation of Connection.execute on hand-written statements for every acceptance rule of the property, '
+                'token-level mutations, random token strings and hand-built ASTs: accepted exactly when the rules hold; every rejection is a '
+                'ProgrammingError (ParseError / CompilationError) and its location is a valid span that the shell can render. T1 obligations on the '
+                'compiler functions are listed in the evidence as they are built.',
+    trusted_base=['TatSu reports the failure position'], assumptions=['well-formed ASTs: PIVOT BY has two columns, placeholders named by "" or an identifier'],
+)
